@@ -59,6 +59,14 @@ class NamedVertex(Vertex):
     def __str__(self):
         return "named-vertex"
 
+class EqVertex(Vertex):
+    """a Vertex subclass with value equality: distinct vertices may compare equal"""
+    def __eq__(self, other):
+        return isinstance(other, EqVertex) and getattr(self, "key", 0) == getattr(other, "key", 0)
+
+    def __hash__(self):
+        return 11
+
 class SlotVertex(Vertex):
     """a Vertex subclass that also declares __slots__ (its slot values are part of its state)"""
     __slots__ = ("payload", "peer")
